@@ -21,6 +21,7 @@ func TestProp(t *testing.T) {
 		Exhaustive: true,
 	})
 	addSingle(r)
+	addErrors(r)
 	addSeq(r)
 	addMulti(r)
 	addInit(r)
